@@ -16,6 +16,14 @@ def belongs(m):
 
 def run(ctx):
     serdecheck.run_serde(ctx, belongs)
+    # the single-value deserializers on every value spelling of the generator
+    from . import parsecheck, core
+    h = ctx.build(features=("preserve_order",))
+    recs = parsecheck.gen_lex_cases(ctx, True, 401 if ctx.quick else 151, 22 if ctx.quick else 48, "gen")
+    gp = ctx.path("gen.ndjson")
+    core.write_ndjson(gp, recs)
+    vp = parsecheck.value_texts(ctx, gp)
+    parsecheck.process_inputs(ctx, h, [("values", vp)], {"vde-verdict", "vde-tree"}, "value-events")
     return ctx.finish("model_checking", RULE)
 
 
